@@ -132,6 +132,17 @@ pub fn run_scenario_family(sc: &Scenario, panic_at: u32, family: u8) -> RunOut {
         let mut str_after: Option<BString> = None;
         let mut held_by_caller: Vec<E> = Vec::with_capacity(32);
         let mut removed_before = false;
+        // blocks an arena initialiser allocates in the same arena and keeps (their addresses are published before it
+        // panics): they stay live, so nothing allocated later may overlap or overwrite them
+        let kept: std::cell::RefCell<Vec<(usize, u64)>> = std::cell::RefCell::new(Vec::with_capacity(16));
+        let keep_some = sc.follow & 4 != 0;
+        let keep = |tag: u64| {
+            if keep_some {
+                let k: &mut u64 = b.alloc(0xA11C_0000_0000_0000u64 | tag);
+                let _u = ledger::enter_user();
+                kept.borrow_mut().push((k as *mut u64 as usize, *k));
+            }
+        };
 
         // build the pre-state without counting its callbacks
         cb_reset(u32::MAX, family);
@@ -275,6 +286,7 @@ pub fn run_scenario_family(sc: &Scenario, panic_at: u32, family: u8) -> RunOut {
                     16 => {
                         let n = (sc.c % 8) as usize;
                         let s = b.alloc_slice_fill_with(n, |i| {
+                            keep(i as u64);
                             let _u = ledger::enter_user();
                             cb_tick(0);
                             E::new(i as u32)
@@ -315,6 +327,7 @@ pub fn run_scenario_family(sc: &Scenario, panic_at: u32, family: u8) -> RunOut {
                         let n = (sc.c % 8) as usize;
                         let fail = (sc.a as usize) % (n + 1);
                         let r: Result<&mut [E], u32> = b.alloc_slice_try_fill_with(n, |i| {
+                            keep(i as u64);
                             let _u = ledger::enter_user();
                             cb_tick(0);
                             if i == fail {
@@ -333,6 +346,7 @@ pub fn run_scenario_family(sc: &Scenario, panic_at: u32, family: u8) -> RunOut {
                     20 => {
                         if sc.a & 1 == 0 {
                             let r: Result<&mut E, u32> = b.alloc_try_with(|| {
+                                keep(77);
                                 let _u = ledger::enter_user();
                                 cb_tick(0);
                                 if sc.b & 1 == 0 {
@@ -347,6 +361,7 @@ pub fn run_scenario_family(sc: &Scenario, panic_at: u32, family: u8) -> RunOut {
                             }
                         } else {
                             let x = b.alloc_with(|| {
+                                keep(78);
                                 let _u = ledger::enter_user();
                                 cb_tick(0);
                                 E::new(3)
@@ -499,6 +514,30 @@ pub fn run_scenario_family(sc: &Scenario, panic_at: u32, family: u8) -> RunOut {
             }
             let x = b.alloc(0x1234_5678u32);
             assert_eq!(*x, 0x1234_5678);
+            // a few more blocks of different shapes: none may land on a block an initialiser kept
+            let fresh: [(usize, usize); 3] = [
+                {
+                    let s = b.alloc_slice_fill_copy(24, 0xEEu8);
+                    (s.as_ptr() as usize, 24)
+                },
+                {
+                    let s = b.alloc_slice_fill_copy(5, 0xEEEE_EEEE_EEEE_EEEEu64);
+                    (s.as_ptr() as usize, 40)
+                },
+                (b.alloc(0xEEEEu16) as *mut u16 as usize, 2),
+            ];
+            let _u = ledger::enter_user();
+            for (kp, kv) in kept.borrow().iter() {
+                for (fp, fl) in fresh.iter() {
+                    if *kp < fp + fl && *fp < kp + 8 {
+                        panic!("a block allocated after the panic [{fp:#x}, +{fl}) overlaps a block the initialiser had allocated and kept [{kp:#x}, +8)");
+                    }
+                }
+                let now = unsafe { std::ptr::read(*kp as *const u64) };
+                if now != *kv {
+                    panic!("a block the initialiser had allocated and kept reads {now:#x} instead of {kv:#x} after later allocations");
+                }
+            }
         }));
         if let Err(e) = follow {
             out.viol.push(format!("{what}: using the container/arena after the panic panicked: {}", panic_msg(e)));
